@@ -8,6 +8,7 @@ terminator hands to execve/chdir, the number of stream pipes and the panics are 
 """
 import json
 import os
+import re
 import subprocess
 
 import common
@@ -44,6 +45,11 @@ def gen(ctx):
                 specs.append(f"{CMDS[0]} {s}:{a} {s}:{b} term:popen")
             for t in TERMS:
                 specs.append(f"{CMDS[0]} {s}:{a} term:{t}")
+    # input data and clones: the copy that runs must deliver the data while the other copy is still alive
+    for ops in ("data:%s clone" % hx(b"hello"), "data:%s clonekeep" % hx(b"hello"), "clone data:%s" % hx(b"hello"),
+                "data:%s clone clone clonekeep" % hx(b"x" * 5000)):
+        for t in ("capture", "communicate", "join"):
+            specs.append(f"{CMDS[0]} {ops} term:{t}")
     for t in TERMS:
         specs.append(f"{CMDS[0]} data:{hx(b'hello')} term:{t}")
         specs.append(f"{CMDS[0]} in:P data:{hx(b'hello')} term:{t}")
@@ -220,6 +226,19 @@ def oracle(c, base, viol):
     npipe = sum(1 for s in st.values() if s == "P")
     if pipes != npipe:
         viol(f"{pipes} stream pipes were created, the configuration asks for {npipe}")
+    # input data accepted by capture() must actually be offered to the child (not silently dropped)
+    toks = c["spec"].split()
+    data = [t for t in toks if t.startswith("data:")]
+    if data and toks[-1] == "term:capture" and res in ("ok", "err"):
+        want = unhx(data[-1][5:])
+        wrote = []
+        for l in c["log"]:
+            m = re.match(r"P write (\d+) (\d+) (\S*) ->", l)
+            if m:
+                wrote.append((int(m.group(2)), unhx(m.group(3)) if m.group(3) not in ("", "-") else b""))
+        first = wrote[0] if wrote else None
+        if want and (first is None or first[0] != min(len(want), 4096) or first[1] != want[:64][:len(first[1])] or not first[1]):
+            viol(f"capture() was given {len(want)} bytes of input data but offered {first} to the child's stdin (input silently dropped)")
 
 
 def run_harness(ctx, specs):
